@@ -246,6 +246,17 @@ def _gen_graph(rng, nmax=6):
     if form == 'int':
         return {"form": "int", "n": n}
     nodes = list(range(n)) if form == 'pair_int' else gen.rand_labels(rng, n)
+    if form == 'edges' and rng.random() < 0.2:
+        # an edge list of exactly two edges over labels that are themselves 2-sequences looks like a
+        # (nodes, edges) pair; graph_argument has to tell them apart
+        nodes = rng.sample(['ab', 'cd', 'ef', 'x0', ('t', 1), ('t', 2), ('u', 'v'), 'gh'], rng.choice([3, 4]))
+        e1 = [nodes[0], nodes[1]]
+        e2 = [nodes[1], nodes[2]] if len(nodes) == 3 else [nodes[2], nodes[3]]
+        for e in (e1, e2):
+            if rng.random() < 0.5:
+                e.reverse()
+        return {"form": form, "n": len(nodes), "nodes": [enc_label(x) for x in nodes],
+                "edges": [[enc_label(u), enc_label(v)] for u, v in (e1, e2)], "edge_type": rng.choice(["tuple", "list"])}
     dens = rng.choice([0.0, 0.3, 0.6, 1.0])
     edges = []
     for i, j in itertools.combinations(range(n), 2):
